@@ -17,3 +17,5 @@ def apply(ctx, W):
         "r == (match *self { Expr::IntLiteral(v) => Some(v), _ => None::<isize> })"])
     fn_into_verus(ctx, fw, "Expr::string_literal", ret="r", tags=U, ensures=[
         "match *self { Expr::StringLiteral(v) => r is Some && r->0@ == v@, _ => r is None }"])
+    fn_into_verus(ctx, fw, "ItemPath::len", ret="r", tags=U, ensures=["r == self.0@.len()"])
+    fn_into_verus(ctx, fw, "ItemPath::is_empty", ret="r", tags=U, ensures=["r == (self.0@.len() == 0)"])
